@@ -35,8 +35,7 @@ def param_uses(ex, idx, under_abs=False, out=None):
     return out
 
 
-def r3(ctx):
-    rule = "C02.R3"
+def r3(ctx, rule="C02.R3"):
     ctx.rule(rule, "X.691 11.8 / 10.4 minimal two's complement: the octet count written by write_unconstrained_whole_number depends on "
                    "the value itself and not only on its magnitude |value| (-128 needs one octet, +128 two: no function of |value| "
                    "alone gives the minimal length)")
